@@ -13,6 +13,7 @@ import (
 
 	"github.com/anacrolix/dht/v2"
 	"github.com/anacrolix/dht/v2/bep44"
+	"github.com/anacrolix/dht/v2/int160"
 	"github.com/anishathalye/porcupine"
 
 	"verifharness/benc"
@@ -260,3 +261,5 @@ func c13expiry(c *evid.Ctx) {
 }
 
 func refSHA1(b []byte) [20]byte { return ref.SHA1(b) }
+
+func krpcInt(id [20]byte) int160.T { return int160.FromByteArray(id) }
